@@ -491,6 +491,7 @@ def run(chk):
     run_D2rel(chk)
     run_D9(chk)
     run_D10(chk)
+    run_D11(chk)
 
 
 def _param_deps(prog, f, expr, at=None, depth=0):
@@ -595,6 +596,38 @@ def run_D10(chk):
                 f"dict) survives and displaces a larger value under D_total")
 
 
+def run_D11(chk):
+    """D11: a shortcut of a mask function -- an `if` whose body returns the mask without going through the selection -- that is decided by
+    one of the global limits (`tol`, `D_total`) is decided by both: the number of values to keep is min(D_total, count above tol), so
+    "nothing to truncate" (or "nothing to keep") can only be concluded from a value that depends on the two of them.  A test on D_total
+    alone returns the untruncated mask whenever D_total does not bind, whatever `tol` asks for."""
+    prog = chk.prog
+    chk.rule("D11", "a shortcut return of a mask function that is decided by one global limit (tol / D_total) is decided by both", floor=2)
+    LIM = {"tol", "D_total"}
+    for name in ("truncation_mask", "truncation_mask_multiplets"):
+        f = prog.func(LINALG, name)
+        if not LIM <= set(f.params):
+            continue
+        for n in A.walk_local(f.node):
+            if not (isinstance(n, ast.If) and any(isinstance(b, ast.Return) for b in n.body)):
+                continue
+            deps = _param_deps(prog, f, n.test, at=n)
+            if not (deps & LIM):
+                continue
+            missing = sorted(LIM - deps)
+            # "keep nothing" does follow from D_total alone: min(0, anything) == 0
+            t_ = n.test
+            zero = (isinstance(t_, ast.UnaryOp) and isinstance(t_.op, ast.Not) and isinstance(t_.operand, ast.Name) and t_.operand.id == "D_total") or \
+                (isinstance(t_, ast.Compare) and len(t_.ops) == 1 and isinstance(t_.left, ast.Name) and t_.left.id == "D_total"
+                 and isinstance(t_.comparators[0], ast.Constant) and (type(t_.ops[0]).__name__, t_.comparators[0].value) in (("Eq", 0), ("LtE", 0), ("Lt", 1)))
+            if zero:
+                missing = []
+            chk.verdict("D11", (f, n), f"{name}: shortcut `if {A.short(n.test, 50)}: .. return` depends on {sorted(deps & LIM)}", False if missing else True,
+                        f"{name}(): the shortcut `if {A.short(n.test, 50)}: ... return` is decided by {sorted(deps & LIM)} but not by `{', '.join(missing)}`: the mask is "
+                        f"returned without the selection whenever that test holds, so the limit `{', '.join(missing)}` is ignored there (e.g. with the default "
+                        f"D_total = inf every value is kept although `tol` excludes some)")
+
+
 def run_D2rel(chk):
     """D2 (relative tolerance): in `X > tol * max_abs(Y)` the reference maximum is taken over the very values that are compared
     (Y == X after resolving single-assignment temporaries).  A maximum taken over other data -- the raw spectrum instead of the
@@ -667,6 +700,7 @@ def run_D8(chk):
                     f"not hit and its minimum is used -- e.g. D_block={{(0,):1,(1,):2,(2,):3}} keeps (1,1,1) with policy='lowrank' and (1,2,3) with 'fullrank'")
 
 MUTANTS = [
+    ('multiplet mask: no-truncation shortcut decided by D_total alone', 'yastn/tensor/linalg.py', '    if D_trunc >= len(s):\n        # no truncation', '    if D_total >= len(s):\n        # no truncation', 'D11'),
     ('ordering key written back into S', 'yastn/tensor/linalg.py', '    _S = abs(S) if which in ["SM", "LM"] else S\n    if which in ["SM", "SR"]:\n        _S = - _S\n', '    if which in ["SM", "LM"]:\n        S = abs(S)\n    _S = -S if which in ["SM", "SR"] else S\n', 'D9'),
     ('reference maximum from the raw spectrum', 'yastn/tensor/linalg.py', '    above_tol = (temp_data > tol * S.config.backend.max_abs(temp_data)) * Smask.data', '    above_tol = (temp_data > tol * S.config.backend.max_abs(S._data)) * Smask.data', 'D2'),
     ('block selection by threshold', 'yastn/tensor/linalg.py', '            inds = S.config.backend.argsort(S.data[slice(*sl.slcs[0])])\n            Smask._data[slice(*sl.slcs[0])][inds[:-D_bl]] = False', '            vals = S.data[slice(*sl.slcs[0])]\n            inds = S.config.backend.argsort(vals)\n            Smask._data[slice(*sl.slcs[0])] = vals >= vals[inds[-D_bl]]', 'D1'),
